@@ -173,6 +173,41 @@ def run(ctx):
                 return "F11 Triangle.locate returns parameters outside the reference triangle by rounding amounts for points on its boundary (no clamp)"
         return None
     sweep(ctx, "Triangle_locate", tri, [("Triangle.locate", lambda c: [enc_arr(c["rows"]), enc_arr([[c["p"][0]], [c["p"][1]]])])], judge_tri, known=known_tri)
+    # ---- off-shape points at graded distances (triangles): a straight-sided triangle presented with degree 1..4 (exact elevation), a point
+    # beyond each edge at relative distance 2^-17 .. 2^-5 (the final search resolution is 2^-20 of the size): must yield None in both configurations
+    off = []
+    for _ in range(48 if ctx.quick() else 1200):
+        A = (F(rng.randint(0, 2)), F(rng.randint(0, 2)))
+        B = (A[0] + F(rng.randint(2, 4)), A[1] + F(rng.randint(-1, 1)))
+        C = (A[0] + F(rng.randint(-1, 1)), A[1] + F(rng.randint(2, 4)))
+        d = rng.randint(1, 4)
+        xs, ys = [], []
+        for k in range(d + 1):
+            for j in range(d + 1 - k):
+                l2, l3 = F(j, d), F(k, d)
+                xs.append((1 - l2 - l3) * A[0] + l2 * B[0] + l3 * C[0])
+                ys.append((1 - l2 - l3) * A[1] + l2 * B[1] + l3 * C[1])
+        if not all(F(float(v)) == v for v in xs + ys):
+            continue
+        verts = [A, B, C]
+        e = rng.randrange(3)
+        P, Q, R = verts[e], verts[(e + 1) % 3], verts[(e + 2) % 3]
+        u = F(rng.randint(1, 15), 16)
+        base = (P[0] + u * (Q[0] - P[0]), P[1] + u * (Q[1] - P[1]))
+        n = (Q[1] - P[1], -(Q[0] - P[0]))                      # a normal of the edge PQ, scaled by its length (2 .. 5)
+        if n[0] * (R[0] - P[0]) + n[1] * (R[1] - P[1]) > 0:    # make it point away from the third vertex
+            n = (-n[0], -n[1])
+        delta = F(1, 2 ** rng.choice([17, 16, 15, 14, 12, 10, 8, 5]))
+        pt = (base[0] + delta * n[0], base[1] + delta * n[1])
+        off.append({"d": d, "rows": [xs, ys], "p": pt, "edge": e, "delta": delta})
+
+    def judge_off(c, op, cfg, raw):
+        if "exc" in raw:
+            return "raised %s" % raw["exc"]
+        v = dec_res(raw["ok"])
+        return None if v is None else "a point at distance >= %s beyond an edge of a straight-sided triangle was located at %s" % (
+            float(2 * c["delta"]), tuple(map(float, v)))
+    sweep(ctx, "Triangle_locate_off_shape_graded", off, [("Triangle.locate", lambda c: [enc_arr(c["rows"]), enc_arr([[c["p"][0]], [c["p"][1]]])])], judge_off)
     # ---- malformed stream: a point of the wrong shape must raise the documented ValueError ("Dimension mismatch") whatever the
     # configuration; the correct shape D x 1 is in the streams above
     bad = []
